@@ -122,6 +122,19 @@ func loadCheck(id string) (*checkDef, error) {
 					return nil, fmt.Errorf("%s: bad replace directive %q", f, ln)
 				}
 				cd.Spec.Replacements[fs[0]] = fs[1]
+			case "gen":
+				// //verif:gen permtable <virtual path> <package name>: a table
+				// generated from /repo's current source on every run
+				fs := strings.Fields(arg)
+				if len(fs) != 3 || fs[0] != "permtable" {
+					return nil, fmt.Errorf("%s: bad gen directive %q", f, ln)
+				}
+				real, err := genPermTable(id, fs[2])
+				if err != nil {
+					return nil, fmt.Errorf("%s: gen permtable: %w", f, err)
+				}
+				cd.Spec.Overlay[fs[1]] = real
+				cd.Files = append(cd.Files, real)
 			case "noop":
 				cd.Spec.NoopPkgs = append(cd.Spec.NoopPkgs, strings.Fields(arg)...)
 			case "bound":
